@@ -38,6 +38,7 @@ def workload(mod, tier, seed):
     re-run with new values.  Deterministic, so every shard sees the same stream."""
     npint = bool(getattr(mod, "NPINT_ARGS", False))
     strided = bool(getattr(mod, "STRIDED_ARGS", False))
+    seqargs = bool(getattr(mod, "SEQ_ARGS", False))
 
     def stream():
         yield from mod.gen_cases(tier, seed)
@@ -49,6 +50,8 @@ def workload(mod, tier, seed):
             case["npint_args"] = True          # see core.Ctx.begin
         if strided and (i + int(seed)) % 4 == 1:
             case["strided_args"] = True
+        if seqargs and (i + int(seed)) % 8 in (2, 6):
+            case["seq_args"] = "list" if (i + int(seed)) % 8 == 2 else "tuple"
         yield case
 
 
